@@ -50,6 +50,19 @@ func shortFn(fn string) string {
 	if i := strings.LastIndex(fn, "/"); i >= 0 {
 		fn = fn[i+1:]
 	}
+	// a closure is reported under its enclosing function
+	for {
+		i := strings.LastIndex(fn, ".")
+		if i < 0 {
+			break
+		}
+		suffix := fn[i+1:]
+		if strings.HasPrefix(suffix, "func") || strings.HasPrefix(suffix, "gowrap") || (len(suffix) > 0 && suffix[0] >= '0' && suffix[0] <= '9') {
+			fn = fn[:i]
+			continue
+		}
+		break
+	}
 	return fn
 }
 
